@@ -11,7 +11,7 @@ mkdir -p /tmp/vm
 rm -rf "$W"; mkdir -p "$W"
 git -C /repo worktree add --detach "$W/repo" HEAD >/dev/null 2>&1
 git -C "$W/repo" apply "$PATCH"
-rsync -a --exclude .build/target --exclude .build/run --exclude .build/scratch --exclude 'replays' --exclude '.build/fresh-*' /verif/ "$W/verif/"
+rsync -a --exclude '.build' --exclude 'replays' /verif/ "$W/verif/" || true
 sed -i "s|/repo/|$W/repo/|g" "$W/verif/harness/Cargo.toml"
 rm -f "$W/verif/harness/Cargo.lock"
 # reuse the compiled dependencies of the main target dir (hard links, no extra space, rebuilds only the path crates)
